@@ -33,7 +33,13 @@ def main(argv=None):
         chk = core.Check(pid, a.tier, seed, a.jobs)
         chk.level = getattr(mod, "META", {}).get("level", chk.level)      # the level the manifest claims (tools/gen_manifest.py reads the same META)
         mod.run(chk)
-        return chk.finish(write_ledger=a.write_ledger)
+        rc = chk.finish(write_ledger=a.write_ledger)
+        if os.environ.get("HV_RUSAGE"):
+            import resource
+            for nm, who in (("self", resource.RUSAGE_SELF), ("children", resource.RUSAGE_CHILDREN)):
+                r = resource.getrusage(who)
+                print(f"rusage {nm}: user={r.ru_utime:.1f}s sys={r.ru_stime:.1f}s minflt={r.ru_minflt} maxrss={r.ru_maxrss // 1024}MB")
+        return rc
     except SystemExit:
         raise
     except BaseException:
